@@ -34,6 +34,22 @@ func ssoSuite(c *Ctx, mon ssoMonitor, rule string) {
 		}
 		c.hist("outcome", outcome)
 		mon(c, r)
+		if c.drv != nil && r.Prov != nil {
+			line, want, err := ssoModelLine(r, r.Prov)
+			if err != nil {
+				c.issue(Issue{Kind: "disagreement", What: "cannot build the model input: " + err.Error(), Site: "sso op", Detail: r.detail()})
+			} else {
+				got, step := stripStep(c.drv.Ask(line))
+				c.rep.TracesValidated++
+				if step != "" {
+					c.hist("model-failing-step", step)
+				}
+				if got != want {
+					det := r.detail()
+					c.issue(Issue{Kind: "disagreement", What: "SSO model and implementation differ", Site: "sso op", Class: "step=" + step, Op: line, Model: got, Impl: want, Detail: det})
+				}
+			}
+		}
 		if c.rep.Evaluations%997 == 1 {
 			c.sample(map[string]interface{}{"case": cs.diff(), "request_method": r.Req.Method, "outcome": outcome, "storage_calls": len(r.Calls)})
 		}
